@@ -19,7 +19,7 @@ EXTENDS Integers, Sequences, FiniteSets, TLC, SequencesExt
 
 CONSTANT Legacy   \* subset of LegacyNames
 LegacyNames == {"PrefixAfterUnique", "PrefixOnDot", "NoAnyComparable", "NilDeref",
-                "BlankBraces", "CDot", "LateDot", "DictCollapse"}
+                "BlankBraces", "CDot", "LateDot", "DictCollapse", "CNameFree"}
 
 (* ------------------------------ pieces ---------------------------------- *)
 \* Rendering produces a sequence of pieces; Flat() gives the raw bytes.
@@ -146,7 +146,8 @@ IsDot(cfg, imps, p) ==
   ELSE IF "LateDot" \notin Legacy /\ Find(imps, p).name \notin {"", "_"}
        THEN Find(imps, p).name = "." /\ Find(imps, p).alias
        ELSE Hint(cfg, p).name = "." /\ Hint(cfg, p).alias
-IsValidAlias(imps, a) == a = "." \/ (a \notin Reserved /\ \A q \in DOMAIN imps : imps[q].name # a)
+\* the name C belongs to the cgo pseudo-package (the pinned tree handed it to whoever asked first: Legacy CNameFree)
+IsValidAlias(imps, a) == a = "." \/ (a \notin Reserved /\ ("CNameFree" \in Legacy \/ a # "C") /\ \A q \in DOMAIN imps : imps[q].name # a)
 Suffix(n, i) == IF i = 0 THEN n ELSE n \o ToString(i)
 \* the name finally stored for candidate u of (name, alias)
 Final(cfg, cand, u) ==
